@@ -11,11 +11,16 @@ additions that make it independent of how the fragment is factored:
   an expression statement that is a call of a stub method / rule-supplied callable is folded.
 * `func_callable` / `module_callables`: a FunctionDef of the analysed module as a callable that *interprets its body*
   (used for helpers a refactoring extracted, so that a rule sees through `x = helper(...)` without pinning the helper).
+* generator functions (round 4): a FunctionDef with `yield` / `yield from` becomes a callable returning a `GenObj`, a *lazy*
+  one-shot iterator - the body is interpreted up to the next `yield` each time the consumer asks for an element (a
+  comprehension, a `for` statement - sa/blockeval.py iterates with the language's own protocol -, `next()`), so that the interleaving of producer and consumer (a buffer that is yielded
+  and then cleared, a residue built as soon as its run is complete) is the one Python has.
 """
 from __future__ import annotations
 
 import ast
 import itertools
+import threading
 from typing import Any, Callable, Dict, Iterable, List, Optional, Sequence
 
 from sa.blockeval import BASE, BlockEval, Unknown, _Rewrite, _Stop
@@ -43,8 +48,85 @@ class Raised(Exception):
         self.name = name
 
 
+class GenObj:
+    """Lazy one-shot iterator over the values an interpreted generator body yields.  The body runs in a helper thread that is
+    strictly alternated with the consumer (one of the two is always blocked), so the evaluation stays sequential and
+    deterministic; exceptions of the body (Raised, Unknown, builtin errors) surface at the `next()` that reaches them."""
+
+    def __init__(self, start: Callable[[Callable[[Any], None]], None], name: str = "generator"):
+        self._start, self._name = start, name
+        self._thread: Optional[threading.Thread] = None
+        self._to_gen, self._to_con = threading.Semaphore(0), threading.Semaphore(0)
+        self._item: Any = None
+        self._exc: Optional[BaseException] = None
+        self._done = False
+
+    def __repr__(self) -> str:
+        return f"<generator {self._name}>"
+
+    def __iter__(self):
+        return self
+
+    def __next__(self):
+        if self._done:
+            raise StopIteration
+        if self._thread is None:
+            self._thread = threading.Thread(target=self._run, daemon=True)
+            self._thread.start()
+        else:
+            self._to_gen.release()
+        self._to_con.acquire()
+        if self._exc is not None:
+            ex, self._exc = self._exc, None
+            raise ex
+        if self._done:
+            raise StopIteration
+        return self._item
+
+    def _run(self) -> None:
+        try:
+            self._start(self._yield)
+        except BaseException as ex:  # handed to the consumer
+            self._exc = ex
+        self._done = True
+        self._to_con.release()
+
+    def _yield(self, v: Any) -> None:
+        self._item = v
+        self._to_con.release()
+        self._to_gen.acquire()
+
+
+def is_generator_def(fdef: ast.AST) -> bool:
+    """`yield` / `yield from` in the body of the function itself (not of a nested def / lambda)."""
+    stack = list(getattr(fdef, "body", []))
+    while stack:
+        n = stack.pop()
+        if isinstance(n, (ast.Yield, ast.YieldFrom)):
+            return True
+        if isinstance(n, (ast.FunctionDef, ast.AsyncFunctionDef, ast.Lambda, ast.ClassDef)):
+            continue
+        stack.extend(ast.iter_child_nodes(n))
+    return False
+
+
 def _groupby(it: Iterable[Any], key: Optional[Callable] = None):
     return [(k, list(g)) for k, g in itertools.groupby(list(it), key)]
+
+
+# builtins called with keyword arguments: (implementation on folded values, accepted keywords)
+_KW_BUILTINS: Dict[str, Any] = {
+    "enumerate": (lambda it, start=0: list(enumerate(it, start)), {"start"}),
+    "zip": (lambda *a, strict=False: list(zip(*a, strict=strict)), {"strict"}),
+    "sum": (lambda it, start=0: sum(it, start), {"start"}),
+    "round": (round, {"ndigits"}),
+    "int": (int, {"base"}),
+    "print": (lambda *a, **k: None, {"file", "end", "sep", "flush"}),
+}
+
+
+# pure builtins the constant folder of sa/consteval.py does not list
+_MORE_BUILTINS: Dict[str, Any] = {"format": format, "divmod": divmod, "ord": ord, "chr": chr, "pow": pow, "hasattr": hasattr, "getattr": getattr, "callable": callable, "ascii": ascii, "hash": hash}
 
 
 class Folder2(Folder):
@@ -65,6 +147,12 @@ class Folder2(Folder):
             if not callable(kw.get("key")):
                 raise NotConst("key is not a function")
             return {"sorted": sorted, "min": min, "max": max}[f.id](*self._elts(n.args), **kw)
+        if isinstance(f, ast.Name) and n.keywords and f.id in _KW_BUILTINS and f.id not in self.local:
+            kw = self._kw(n)
+            if set(kw) <= _KW_BUILTINS[f.id][1]:
+                return _KW_BUILTINS[f.id][0](*self._elts(n.args), **kw)
+        if isinstance(f, ast.Name) and not n.keywords and f.id in _MORE_BUILTINS and f.id not in self.local:
+            return _MORE_BUILTINS[f.id](*self._elts(n.args))
         if isinstance(f, ast.Name) and f.id == "iter" and len(n.args) == 1 and not n.keywords:
             return iter(list(self.fold(n.args[0])))  # a one-shot iterator over the elements present now
         if isinstance(f, ast.Name) and f.id == "next" and 1 <= len(n.args) <= 2 and not n.keywords and "next" not in self.local:
@@ -107,6 +195,10 @@ class Folder2(Folder):
                     return getattr(recv, f.attr)(*self._elts(n.args), **self._kw(n))
                 if isinstance(recv, dict) and f.attr == "setdefault" and not n.keywords:
                     return recv.setdefault(*self._elts(n.args))
+                if isinstance(recv, list) and f.attr == "sort" and not n.args:
+                    kw = self._kw(n)
+                    if set(kw) <= {"key", "reverse"} and (kw.get("key") is None or callable(kw["key"])):
+                        return recv.sort(**kw)  # in place, like the language
                 if isinstance(recv, str) and f.attr in ("zfill", "center", "title", "capitalize", "isupper", "islower", "isalnum", "isnumeric", "isdecimal", "find", "count", "partition", "rpartition", "splitlines", "rsplit") and not n.keywords:
                     return getattr(recv, f.attr)(*self._elts(n.args))
         return super()._f_Call(n)
@@ -115,14 +207,258 @@ class Folder2(Folder):
 _NONE = object()
 
 
+def _elementwise(v: Any) -> bool:
+    return getattr(v, "_elementwise", False)
+
+
+def _compare(self, n: ast.Compare):
+    """A comparison whose operand is a table / column stand-in (sa/frame.py) is element-wise and yields a column, not a bool."""
+    import operator
+
+    if len(n.ops) == 1 and type(n.ops[0]) in (ast.Eq, ast.NotEq, ast.Lt, ast.LtE, ast.Gt, ast.GtE):
+        left, right = self.fold(n.left), self.fold(n.comparators[0])
+        if _elementwise(left) or _elementwise(right):
+            op = {ast.Eq: operator.eq, ast.NotEq: operator.ne, ast.Lt: operator.lt, ast.LtE: operator.le, ast.Gt: operator.gt, ast.GtE: operator.ge}[type(n.ops[0])]
+            return op(left, right)
+        f = {ast.Eq: operator.eq, ast.NotEq: operator.ne, ast.Lt: operator.lt, ast.LtE: operator.le, ast.Gt: operator.gt, ast.GtE: operator.ge}[type(n.ops[0])]
+        return bool(f(left, right))
+    return Folder._f_Compare(self, n)
+
+
+def _unary(self, n: ast.UnaryOp):
+    if isinstance(n.op, ast.Invert):
+        v = self.fold(n.operand)
+        if _elementwise(v) or isinstance(v, int):
+            return ~v
+        raise NotConst("unary ~")
+    return Folder._f_UnaryOp(self, n)
+
+
+def _binop(self, n: ast.BinOp):
+    if isinstance(n.op, (ast.BitAnd, ast.BitOr)):
+        left, right = self.fold(n.left), self.fold(n.right)
+        if _elementwise(left) or _elementwise(right):
+            return (left & right) if isinstance(n.op, ast.BitAnd) else (left | right)
+    return Folder._f_BinOp(self, n)
+
+
 def _gen(self, n):
     return iter(Folder._f_ListComp(self, n))
 
 
+Folder2._f_Compare = _compare
+Folder2._f_UnaryOp = _unary
+Folder2._f_BinOp = _binop
 Folder2._f_GeneratorExp = _gen  # a generator expression is a one-shot iterator (elements computed when it is created)
 
 
+# ---- which statements the representatives reached ------------------------------------------------------------------------
+_COVERAGE: Optional[set] = None
+
+
+class coverage:
+    """`with coverage() as cov:` - ids of the statements BlockEval2 executes inside the block (all evaluators, helpers included).
+    A rule that evaluates a fragment on representatives uses it to say what the representatives did *not* reach: an exit
+    (continue / break / return) that no representative takes is behaviour for inputs outside the classes the rule looked at."""
+
+    def __enter__(self):
+        global _COVERAGE
+        self._saved = _COVERAGE
+        _COVERAGE = self.cov = set() if _COVERAGE is None else _COVERAGE
+        return self.cov
+
+    def __exit__(self, *a):
+        global _COVERAGE
+        _COVERAGE = self._saved
+        return False
+
+
+def schema_only(test: ast.AST) -> bool:
+    """The condition asks only which columns / keys exist (`c in t.columns`, `c not in row`, combined by and / or / not): it
+    distinguishes classes of *schema*, which a rule enumerates by its table classes, not values of the data."""
+    if isinstance(test, ast.BoolOp):
+        return all(schema_only(v) for v in test.values)
+    if isinstance(test, ast.UnaryOp) and isinstance(test.op, ast.Not):
+        return schema_only(test.operand)
+    if isinstance(test, ast.Compare) and len(test.ops) == 1 and isinstance(test.ops[0], (ast.In, ast.NotIn)):
+        c = test.comparators[0]
+        return isinstance(c, ast.Attribute) and c.attr in ("columns", "index", "attrs") and isinstance(test.left, (ast.Constant, ast.Name))
+    return False
+
+
+def unreached_exits(fdef: ast.AST, cov: set, kinds: Sequence[type] = (ast.Continue, ast.Break, ast.Return), data: Optional[Sequence[str]] = None) -> List[tuple]:
+    """[(exit statement, text of the innermost condition it stands under)] for the conditional exits of `fdef` (nested defs
+    excluded) that no interpreted run executed although the function itself ran.  `raise` is not listed by default: a refusal is
+    loud, not a silent outcome.  With `data` (names of the parameters that carry the input data) only *data-dependent* exits are
+    listed: continue / break of a loop that goes over something computed from the data, return under a condition that mentions
+    a name computed from the data (or inside such a loop)."""
+    body = getattr(fdef, "body", [])
+    if not any(id(st) in cov for st in body):
+        return []  # the function was never interpreted: nothing to say
+    tainted: Optional[set] = None
+    if data is not None:
+        tainted = set(data)
+        changed = True
+        while changed:
+            changed = False
+            for n in ast.walk(fdef):
+                tg: List[ast.AST] = []
+                val: Optional[ast.AST] = None
+                if isinstance(n, ast.Assign):
+                    tg, val = list(n.targets), n.value
+                elif isinstance(n, (ast.AnnAssign, ast.AugAssign)) and n.value is not None:
+                    tg, val = [n.target], n.value
+                elif isinstance(n, (ast.For, ast.comprehension)):
+                    tg, val = [n.target], n.iter
+                elif isinstance(n, ast.NamedExpr):
+                    tg, val = [n.target], n.value
+                if val is None or not any(isinstance(x, ast.Name) and x.id in tainted for x in ast.walk(val)):
+                    continue
+                for t in tg:
+                    for x in ast.walk(t):
+                        if isinstance(x, ast.Name) and x.id not in tainted:
+                            tainted.add(x.id)
+                            changed = True
+    out: List[tuple] = []
+
+    def walk(stmts: Sequence[ast.stmt], guard: str, names: frozenset, in_loop: bool, schema: bool = False) -> None:
+        for st in stmts:
+            if isinstance(st, (ast.FunctionDef, ast.AsyncFunctionDef, ast.ClassDef)):
+                continue
+            if isinstance(st, tuple(kinds)) and schema and tainted is not None:
+                continue  # chosen by which columns exist, not by what they hold
+            if isinstance(st, tuple(kinds)):
+                # continue / break end a round of the innermost loop: that matters when the loop goes over the records of the input
+                # (its rows, lines, atoms), not when it goes over a constant list (column names, table rows of the program);
+                # a return matters when its condition looks at the data
+                relevant = tainted is None or (in_loop if isinstance(st, (ast.Continue, ast.Break)) else bool(names & tainted) or in_loop)
+                if id(st) not in cov and guard and relevant:
+                    out.append((st, guard))
+                continue
+            if isinstance(st, ast.If):
+                t = ast.unparse(st.test)
+                nm = names | frozenset(x.id for x in ast.walk(st.test) if isinstance(x, ast.Name))
+                sch = schema_only(st.test)
+                walk(st.body, t, nm, in_loop, sch)
+                walk(st.orelse, f"not ({t})", nm, in_loop, sch)
+            elif isinstance(st, (ast.For, ast.While)):
+                over = st.iter if isinstance(st, ast.For) else st.test
+                data_loop = tainted is None or any(isinstance(x, ast.Name) and x.id in tainted for x in ast.walk(over))
+                walk(st.body, guard, names, data_loop)
+                walk(st.orelse, guard, names, in_loop)
+            elif isinstance(st, (ast.With, ast.AsyncWith)):
+                walk(st.body, guard, names, in_loop)
+            elif isinstance(st, ast.Try):
+                walk(st.body, guard, names, in_loop)
+                for h in st.handlers:
+                    # which input makes the guarded statements fail is a matter of the data: exits of a handler count as data-dependent
+                    walk(h.body, f"except {ast.unparse(h.type) if h.type is not None else ''}".strip(), names | (frozenset(tainted) if tainted else frozenset()), in_loop)
+                walk(st.orelse, guard, names, in_loop)
+                walk(st.finalbody, guard, names, in_loop)
+            elif isinstance(st, ast.Match):
+                for c in st.cases:
+                    walk(c.body, f"case {ast.unparse(c.pattern)}", names, in_loop)
+
+    walk(body, "", frozenset(), False)
+    return out
+
+
+_EMITTERS = {"append", "extend", "add", "write", "writelines", "insert", "setdefault", "update", "appendleft", "put"}
+
+
+def one_way_emissions(fdef: ast.AST, cov: set, data: Sequence[str]) -> List[tuple]:
+    """[(if statement, 'true' | 'false' = the way its condition never went)] for the conditions that every round of a loop over the
+    input's records passes through (statements of the loop body itself), that look at the record of the round, and that went the same
+    way for every representative, where the arm that was always taken *emits* (appends, writes, yields, stores into a container) and
+    the other arm does not: for records on the other side of the condition nothing is emitted - the class of input the
+    representatives do not contain loses its records."""
+    tainted = set(data)
+    changed = True
+    while changed:
+        changed = False
+        for n in ast.walk(fdef):
+            tg: List[ast.AST] = []
+            val: Optional[ast.AST] = None
+            if isinstance(n, ast.Assign):
+                tg, val = list(n.targets), n.value
+            elif isinstance(n, (ast.AnnAssign, ast.AugAssign)) and n.value is not None:
+                tg, val = [n.target], n.value
+            elif isinstance(n, (ast.For, ast.comprehension)):
+                tg, val = [n.target], n.iter
+            if val is None or not any(isinstance(x, ast.Name) and x.id in tainted for x in ast.walk(val)):
+                continue
+            for t in tg:
+                for x in ast.walk(t):
+                    if isinstance(x, ast.Name) and x.id not in tainted:
+                        tainted.add(x.id)
+                        changed = True
+
+    def emits(stmts: Sequence[ast.stmt]) -> bool:
+        for st in stmts:
+            for n in ast.walk(st):
+                if isinstance(n, (ast.Yield, ast.YieldFrom)):
+                    return True
+                if isinstance(n, ast.Call) and isinstance(n.func, ast.Attribute) and n.func.attr in _EMITTERS:
+                    return True
+                if isinstance(n, ast.Assign) and any(isinstance(t, ast.Subscript) for t in n.targets):
+                    return True
+        return False
+
+    out: List[tuple] = []
+
+    def record_names(loop: ast.For) -> set:
+        """names that hold (parts of) the record of the current round: the loop target and what is computed from it in the body"""
+        names = {x.id for x in ast.walk(loop.target) if isinstance(x, ast.Name)}
+        grew = True
+        while grew:
+            grew = False
+            for n in ast.walk(loop):
+                if isinstance(n, ast.Assign) and any(isinstance(x, ast.Name) and x.id in names for x in ast.walk(n.value)):
+                    for t in n.targets:
+                        for x in ast.walk(t):
+                            if isinstance(x, ast.Name) and x.id not in names:
+                                names.add(x.id)
+                                grew = True
+        return names
+
+    def walk(stmts: Sequence[ast.stmt], loop: Optional[ast.For]) -> None:
+        for st in stmts:
+            if isinstance(st, (ast.FunctionDef, ast.AsyncFunctionDef, ast.ClassDef)):
+                continue
+            if isinstance(st, ast.If):
+                if loop is not None and any(st is x for x in loop.body):  # a condition every record of the round passes through
+                    t, f = (id(st), True) in cov, (id(st), False) in cov
+                    rec = record_names(loop)
+                    looks = any(isinstance(x, ast.Name) and x.id in rec for x in ast.walk(st.test))
+                    if looks and t != f:
+                        taken, other = (st.body, st.orelse) if t else (st.orelse, st.body)
+                        if emits(taken) and not emits(other):
+                            out.append((st, "false" if t else "true"))
+                walk(st.body, loop)
+                walk(st.orelse, loop)
+            elif isinstance(st, ast.For):
+                data_loop = any(isinstance(x, ast.Name) and x.id in tainted for x in ast.walk(st.iter))
+                walk(st.body, st if data_loop else None)
+                walk(st.orelse, loop)
+            elif isinstance(st, ast.While):
+                walk(st.body, loop)
+            elif isinstance(st, (ast.With, ast.AsyncWith)):
+                walk(st.body, loop)
+            elif isinstance(st, ast.Try):
+                walk(st.body, loop)
+                for h in st.handlers:
+                    walk(h.body, loop)
+                walk(st.orelse, loop)
+                walk(st.finalbody, loop)
+
+    if any(id(st) in cov for st in getattr(fdef, "body", [])):
+        walk(getattr(fdef, "body", []), None)
+    return out
+
+
 class BlockEval2(BlockEval):
+    yield_fn: Optional[Callable[[Any], None]] = None  # set by func_callable when the interpreted body is a generator
+
     def fold(self, e: ast.AST) -> Any:
         import copy
 
@@ -133,8 +469,15 @@ class BlockEval2(BlockEval):
             raise Unknown(f"`{ast.unparse(e)[:60]}`: {ex}")
 
     def _stmt(self, st: ast.stmt) -> None:
+        if _COVERAGE is not None:
+            _COVERAGE.add(id(st))
         if isinstance(st, ast.FunctionDef):
             self.env[st.name] = func_callable(self.repo, self.module, st, self.env, live=True)
+            return
+        if isinstance(st, ast.If) and _COVERAGE is not None:
+            v = bool(self.fold(st.test))
+            _COVERAGE.add((id(st), v))  # which way the condition went (both ways over all representatives = both classes seen)
+            self._block(st.body if v else st.orelse)
             return
         if isinstance(st, ast.Raise):
             name = "Exception"
@@ -142,6 +485,15 @@ class BlockEval2(BlockEval):
                 t = st.exc.func if isinstance(st.exc, ast.Call) else st.exc
                 name = ast.unparse(t).split(".")[-1]
             raise Raised(name, ast.unparse(st)[:80])
+        if isinstance(st, ast.Expr) and isinstance(st.value, (ast.Yield, ast.YieldFrom)):
+            if self.yield_fn is None:
+                raise Unknown("yield outside an interpreted generator function")
+            if isinstance(st.value, ast.Yield):
+                self.yield_fn(self.fold(st.value.value) if st.value.value is not None else None)
+            else:
+                for v in self.fold(st.value.value):
+                    self.yield_fn(v)
+            return
         if isinstance(st, ast.Expr) and isinstance(st.value, ast.Call):
             c = st.value
             try:
@@ -190,8 +542,8 @@ class BlockEval2(BlockEval):
     def _assign(self, t: ast.AST, v: Any) -> None:
         if isinstance(t, ast.Subscript) and not (isinstance(t.value, ast.Name)):
             base = self.fold(t.value)
-            if isinstance(base, (dict, list)):
-                base[self.fold(t.slice)] = v
+            if isinstance(base, (dict, list)) or (getattr(base, "_folder_stub", False) and hasattr(base, "__setitem__")):
+                base[self.fold(t.slice)] = v  # d[k][j] = v, frame.loc[rows, column] = v, frame.attrs[k] = v
                 return
         if isinstance(t, ast.Attribute):
             base = self.fold(t.value)
@@ -215,17 +567,20 @@ def func_callable(repo, module: str, fdef: ast.FunctionDef, outer: Optional[Dict
     """The function as a callable that interprets its own body with BlockEval2.  Free names are looked up in `outer`
     (by reference when `live`, as Python closures do) and then in the module's constants."""
     a = fdef.args
-    if a.vararg or a.kwarg or a.posonlyargs:
+    if a.kwarg or a.posonlyargs:
         raise Unknown(f"signature of {fdef.name}")
     params = [p.arg for p in a.args]
     kwonly = [p.arg for p in a.kwonlyargs]
     body = [s for s in fdef.body if not (isinstance(s, ast.Expr) and isinstance(s.value, ast.Constant))]
+    generator = is_generator_def(fdef)
 
     def call(*vals, **kw):
         env: Dict[str, Any] = dict(outer) if outer is not None else {}
-        if len(vals) > len(params):
+        if len(vals) > len(params) and not a.vararg:
             raise Unknown(f"arity of {fdef.name}")
         bound = dict(zip(params, vals))
+        if a.vararg:
+            bound[a.vararg.arg] = tuple(vals[len(params) :])  # *args
         for k, v in kw.items():
             if k not in params + kwonly or k in bound:
                 raise Unknown(f"keyword {k} of {fdef.name}")
@@ -241,6 +596,17 @@ def func_callable(repo, module: str, fdef: ast.FunctionDef, outer: Optional[Dict
                 bound[p] = BlockEval2(repo, module, env).fold(defaults[p])
         env.update(bound)
         ev = BlockEval2(repo, module, env, max_steps=max_steps)
+        if generator:
+
+            def start(yield_fn):
+                ev.yield_fn = yield_fn
+                kind, val = ev.run(body)
+                if kind == "raise":
+                    raise Raised(val, f"{fdef.name} raises {val}")
+                if kind not in ("return", "fall"):
+                    raise Unknown(f"{fdef.name} ends with {kind}")
+
+            return GenObj(start, fdef.name)
         kind, val = ev.run(body)
         if kind == "raise":
             raise Raised(val, f"{fdef.name} raises {val}")
@@ -273,3 +639,51 @@ def module_callables(repo, module: str, names: Optional[Iterable[str]] = None, o
             continue
     env.update({k: v for k, v in out.items() if k not in env})
     return out
+
+
+class Instance:
+    """An object of a repository class, interpreted: its fields are given by the rule, its methods and properties are evaluated from the
+    class body (methods of base classes defined in the same module included) when the fragment - or the rule - asks for them.
+    `cached_property` values are kept like the real descriptor does; a plain `property` is evaluated at every access."""
+
+    _folder_stub = True
+
+    def __init__(self, repo, module: str, cls: str, env: Optional[Dict[str, Any]] = None, **fields: Any):
+        self.__dict__["_I"] = (repo, module, cls, dict(env or {}))
+        self.__dict__.update(fields)
+
+    def __repr__(self) -> str:
+        return f"<{self._I[2]} stub>"
+
+    def _member(self, name: str):
+        repo, module, cls, env = self._I
+        m = repo.module(module)
+        todo, seen = [cls], set()
+        while todo:
+            c = todo.pop(0)
+            if c in seen or c not in m.classes:
+                continue
+            seen.add(c)
+            fi = m.funcs.get(f"{c}.{name}")
+            if fi is not None:
+                return fi
+            todo += [ast.unparse(b).split(".")[-1] for b in m.classes[c].bases]
+        return None
+
+    def __getattr__(self, name: str):
+        if name.startswith("__") or name == "_I":
+            raise AttributeError(name)
+        fi = self._member(name)
+        if fi is None:
+            raise AttributeError(name)
+        repo, module, cls, env = self._I
+        call = func_callable(repo, module, fi.node, env, max_steps=20000)
+        decs = fi.decorators
+        if "property" in decs or "cached_property" in decs:
+            v = call(self)
+            if "cached_property" in decs:
+                self.__dict__[name] = v
+            return v
+        if "staticmethod" in decs:
+            return call
+        return lambda *a, **k: call(self, *a, **k)
